@@ -55,7 +55,11 @@ type c01Gen struct {
 func (g *c01Gen) n(lo, hi int, l string) int { return rapid.IntRange(lo, hi).Draw(g.t, l) }
 
 func (g *c01Gen) valueRecipe() mj.Recipe {
-	switch g.n(0, 16, "valkind") {
+	switch g.n(0, 18, "valkind") {
+	case 17: // values without anything behind them print as "<nil>": special bytes that no string in the data holds
+		return mj.Recipe{T: "nil*user"}
+	case 18:
+		return mj.Recipe{T: "nilfunc"}
 	case 16:
 		if g.plainOnly {
 			return mj.RStr(genSpecialString(g.t, "sval"))
@@ -280,6 +284,10 @@ func genC01(t *rapid.T) c01Case {
 		g.p.Files = append(g.p.Files, layout)
 		main.Extends = "/layout.jet"
 		main.Body = []*mj.Node{mj.Text("discarded <text>"), {K: "block", Name: "main", Body: body}}
+		if g.n(0, 2, "foreignLayout") == 0 {
+			// the layout sits in a Cache object shared with a Set that escapes differently and got there first
+			g.p.ForeignLayout = []string{"html", "nil", "custom"}[g.n(0, 2, "foreignEscaper")]
+		}
 	} else {
 		main.Body = body
 	}
@@ -348,11 +356,14 @@ func judgeC01(c c01Case) (v core.Verdict) {
 			v.Label("user-writer-registered-as:" + nm)
 		}
 	}
+	if c.Prog.ForeignLayout != "" && c.Prog.ForeignLayout != map[string]string{"": "html"}[c.Prog.Escaper]+c.Prog.Escaper {
+		v.Label("layout-parsed-by-a-set-with-another-escaper")
+	}
 	if c.Prog.BrokenFirst > 0 {
 		v.Label("after-an-execution-into-a-broken-destination")
 	}
 	for _, r := range c.Prog.Vars {
-		if strings.ContainsAny(r.S, "<>&'\"") || r.T == "level" || r.T == "code" || r.T == "renderer-write" {
+		if strings.ContainsAny(r.S, "<>&'\"") || r.T == "level" || r.T == "code" || r.T == "renderer-write" || r.T == "nil*user" || r.T == "nilfunc" {
 			special = true
 		}
 		if r.T == "longstring" {
